@@ -209,8 +209,15 @@ func (env *Env) eval(e Expr) (EV, error) {
 			sort, ok := logicalSort(qv.Type)
 			var gt types.Type
 			if !ok {
-				// a Go type name: references are Int
+				// a Go type name: references are Int; a pointer type gives the variable its fields
 				sort = SInt
+				if te, perr := ParseExpr(qv.Type); perr == nil {
+					if t, terr := env.typeArg(te); terr == nil {
+						if _, isPtr := t.Underlying().(*types.Pointer); isPtr {
+							gt = t
+						}
+					}
+				}
 			}
 			ex.D.n++
 			name := fmt.Sprintf("%s!%d", qv.Name, ex.D.n)
@@ -1122,6 +1129,16 @@ func (env *Env) call(x *ECall) (EV, error) {
 			return EV{}, fmt.Errorf("mkiface(tag, ref)")
 		}
 		return EV{V: IfaceV{tg, rf}}, nil
+	case "mul64":
+		// mul64(a, b): a*b as a 64-bit signed machine multiplication (wraps on overflow)
+		if len(args) == 2 {
+			a, ok1 := args[0].V.(Term)
+			b, ok2 := args[1].V.(Term)
+			if ok1 && ok2 {
+				return EV{V: wrapMul64(a, b)}, nil
+			}
+		}
+		return EV{}, fmt.Errorf("mul64(a, b)")
 	case "sprintf":
 		// sprintf("format", args...): the text fmt.Sprintf produces (same term the engine uses)
 		if f, ok := x.Args[0].(*EStr); ok {
